@@ -2,7 +2,10 @@ module verifharness
 
 go 1.26.1
 
-require github.com/thought-machine/please v0.0.0
+require (
+	github.com/thought-machine/please v0.0.0
+	gopkg.in/op/go-logging.v1 v1.0.0-20160211212156-b2cb9fa56473
+)
 
 require (
 	github.com/beorn7/perks v1.0.1 // indirect
@@ -34,7 +37,6 @@ require (
 	golang.org/x/sys v0.47.0 // indirect
 	golang.org/x/term v0.45.0 // indirect
 	google.golang.org/protobuf v1.36.11 // indirect
-	gopkg.in/op/go-logging.v1 v1.0.0-20160211212156-b2cb9fa56473 // indirect
 	gopkg.in/warnings.v0 v0.1.2 // indirect
 )
 
